@@ -7,6 +7,7 @@ wrong keys, key derivations over the stated parameter ranges, and the property o
 import hashlib, hmac, struct
 from nintendo.nex import kerberos, common
 import nexval_gen as G
+import c16_seq
 
 LEVEL = "proof"
 
@@ -103,6 +104,8 @@ def run(ctx):
                 "envelope encrypt/decrypt/check for keys 0..257 bytes and data 0..4 KiB; client/server tickets over key size 16/32 x pid 4/8 x version 0/1 with the "
                 "ticket randomness pinned (ciphertexts compared byte for byte); sequences of 5..9 mixed operations (server/client tickets, raw envelope, decrypt) under ONE key and one settings object "
                 "with keys alternating A,B,A,B: each call must draw exactly the randomness the model says and equal the model/reference for the randomness of that call; every single-bit flip and every truncation of sampled ciphertexts and wrong keys; "
+                "ONE KeyDerivationOld/New object (defaults and small parameters) for 6..31 derivations in a row (pid % pid_count descending/ascending/repeating, passwords interleaved, a sibling object in between) compared with a fresh object, the reference and the model after every call; "
+                "ONE settings object through ticket call sequences in which refused calls (1-bit flip, truncation, wrong key, wrong session-key size, id/time out of range) are followed by genuine ones: settings read the same, earlier tickets still open, new ciphertexts equal the reference; "
                 "oracles on the real code: round trip of all fields, equality with independent Python references, rejection of every tampered ciphertext. "
                 "distinct non-trivial = distinct operation lines")
     ctx.assumptions.append("HMAC-MD5 unforgeability (a party without the key cannot produce an accepted tag): cryptographic assumption, not a Lean hypothesis; "
@@ -151,6 +154,9 @@ def run(ctx):
         B.add("kd.%s %d %d %s %d" % (kind, b, p, G.hx(pw), pid), real, ("kd.default", None))
         if real != "ok " + G.hx(ref(pw, pid)):
             violation("derive-%s:defaults" % kind, "default iteration counts of KeyDerivation%s differ from the specification" % kind.capitalize(), {"scheme": kind, "real": real})
+
+    # ONE derivation object used for a sequence of derivations (state carried from one derive_key to the next)
+    c16_seq.kd_sequences(ctx, B, violation, ref_derive_old, ref_derive_new, wrap, quick)
 
     # ---------------------------------------------------------------- envelope
     tamper_src = []
@@ -369,6 +375,8 @@ def run(ctx):
                         violation("server-ticket-key-reused:v%d" % ver, "tickets issued under one key do not carry the fresh 16 bytes drawn for each of them (ticket key reused or not taken from secrets.token_bytes)",
                                   {"key_size": ks, "pid_size": ps, "version": ver, "key": key.hex(), "draws_per_ticket": [d.hex() for d in draws], "ticket_key_prefix_per_ticket": [p.hex() for p in found]})
         ctx.extra["same_key_sequence_operations"] = seq_ops
+        # ONE settings object through sequences in which some calls are refused (damaged / wrong-key tickets, wrong sizes)
+        c16_seq.settings_sequences(ctx, B, violation, pinned, ref_envelope, wrap, hmac_equivalent, other_keys, gen_key, quick)
         # every single-bit flip and truncation of sampled tickets
         for kind, (ks, ps, ver), key, ct in tick_src[: (24 if quick else 160)]:
             S = G.make_settings(pid_size=ps, key_size=ks, ticket_version=ver)
